@@ -64,6 +64,11 @@ func c17Str(r *rand.Rand) string {
 	case 4, 5:
 		// a single byte 1..255 alone or next to a quote (as a Latin-1 -> rune, so the text stays valid UTF-8)
 		c := rune(1 + r.IntN(255))
+		if r.IntN(5) == 0 {
+			// boundary code points: the replacement character (what decoders hand out for invalid bytes), ends of the
+			// surrogate gap, last BMP / first astral / last code point, BOM, NEL, line and paragraph separator
+			c = []rune{0xFFFD, 0xD7FF, 0xE000, 0xFFFC, 0x10000, 0x10FFFD, 0xFEFF, 0x85, 0x2028, 0x2029, 0x7FF, 0x800}[r.IntN(12)]
+		}
 		switch r.IntN(4) {
 		case 0:
 			return string(c)
